@@ -313,6 +313,12 @@ def check_parallel(ctx):
     jobs = []
     for j in base:
         j["islands"] = 3
+        # Named deviation DEV_AsyncMigration: with a connected topology pygmo migrates individuals between the
+        # island threads asynchronously, and the outcome of two identical runs differs (established on the
+        # unchanged tree: ring, 3 islands, fixed seeds, same scheduler -> three different champion histories in
+        # eight runs).  The statement speaks about the number of workers and the creation order of the islands,
+        # which can only be decided where the optimisation itself is repeatable: unconnected archipelagos.
+        j["topology"] = "unconnected"
         for sch, w, delay in ((None, None, 0.0), ("synchronous", None, 0.0), ("threads", 1, 0.0), ("threads", 4, 0.02),
                               ("threads", 16, 0.02)):
             jj = copy.deepcopy(j)
